@@ -60,6 +60,9 @@ WtAdd(w, detached) ==
        /\ refs' = IF detached THEN refs ELSE [refs EXCEPT ![w] = c]
   /\ stale' = stale \ {w}      \* the replay clears the directory before adding
   /\ UNCHANGED commits /\ Log(IF detached THEN "wt-add-detached" ELSE "wt-add", w, "none", "ok")
+\* A second add under a name that is in use is refused and must leave the existing worktree alone
+WtAddDup(w) == /\ w \in Linked /\ wt[w].exists
+               /\ UNCHANGED <<commits, refs, wt, stale>> /\ Log("wt-add-dup", w, "none", "refused")
 \* Remove deletes the administrative entry only; the directory and its .git file stay behind
 WtRemove(w) == /\ w \in Linked /\ wt[w].exists
                /\ wt' = [wt EXCEPT ![w] = Absent] /\ stale' = stale \cup {w}
@@ -75,7 +78,7 @@ Next == /\ Len(hist) < MaxOps
            \/ \E w \in WTs : Stage(w) \/ Commit(w)
            \/ \E w \in WTs, c \in 1..MaxCommits : ResetHard(w, c)
            \/ \E w \in Linked, d \in BOOLEAN : WtAdd(w, d)
-           \/ \E w \in Linked : WtRemove(w) \/ UseStale(w)
+           \/ \E w \in Linked : WtRemove(w) \/ UseStale(w) \/ WtAddDup(w)
 Spec == Init /\ [][Next]_vars
 
 \* ---- properties of the model (C33)
